@@ -16,7 +16,8 @@
  *   subarray: elements of the sub-box in the given order at (linear index in the full array)*ex, lb:=0, ub:=prod(sizes)*ex (sticky)
  *   sticky rule of MPI (a marker overrides the entries) vs plain min/max: when both readings differ for a tree, both are accepted.
  *   A tree containing an empty component (count/blocklength 0) has unconstrained lb/ub/extent (only its size and its data
- *   movement are checked): MPI defines min/max over an empty type map nowhere.
+ *   movement are checked): MPI defines min/max over an empty type map nowhere. The model then adopts the implementation's
+ *   lb/ub for that sub-tree, since they decide where its copies go inside the enclosing constructors.
  * count copies of T for a buffer: copy c at c*extent(T).
  *
  * Tests per tree (counts 0..3):  size, lb, ub, extent;  Pack (typed -> bytes), Unpack (bytes -> typed, canary everywhere else),
@@ -44,6 +45,8 @@
 
 enum Ctor { CONTIG, VECTOR, HVECTOR, INDEXED, HINDEXED, IDXBLOCK, STRUCT, RESIZED, SUBARRAY };
 static const char* cname[] = {"contig", "vector", "hvector", "indexed", "hindexed", "idxblock", "struct", "resized", "subarray"};
+/* the class that implements each constructor in smpi_datatype_derived.cpp (Type_Hvector, Type_Hindexed, Type_Struct, ...) */
+static const char* cclass[] = {"Vec", "Vec", "Vec", "Idx", "Idx", "Idx", "Struct", "Resized", "Subarray"};
 
 /* one constructor instance; byte parameters are stored in units (multiplied by the leaf unit when used) */
 struct Inst {
@@ -464,6 +467,7 @@ static int me, np;
 static const char *mode, *fam;
 static char leafc;
 static long shard, nshards, only, start_idx, zeromove = 1;
+static std::vector<long> only_list; /* argv only = -1 | i | i,j,k: just these trees */
 static volatile long cur_idx = -1;
 static long n_trees = 0, n_bounds_checked = 0, n_bounds_unconstrained = 0, n_ambiguous = 0, n_move = 0, n_overlap_skipped = 0, n_noncontig = 0,
             n_resized_inner = 0, n_bytes = 0, n_zero_skipped = 0;
@@ -680,8 +684,8 @@ static std::string chain_str(const std::vector<const Inst*>& chain, bool shape)
   std::string r;
   int depth = (int)chain.size();
   for (int i = 0; i < depth; i++) {
-    if (shape)
-      r += std::string(i ? ">" : "") + cname[chain[i]->c] + (chain[i]->has_zero() ? "~z" : "");
+    if (shape) /* depth <= 2: constructor names; depth 3: implementation classes, to keep the number of groups reasonable */
+      r += std::string(i ? ">" : "") + (depth >= 3 ? cclass[chain[i]->c] : cname[chain[i]->c]) + (chain[i]->has_zero() ? "~z" : "");
     else
       r += chain[i]->str() + "[";
   }
@@ -720,6 +724,14 @@ static Outcome evaluate(const std::vector<const Inst*>& chain, MPI_Datatype leaf
     cur = nt;
     ms  = ns;
     mp  = npl;
+    if (ms.has_empty) {
+      /* MPI does not define lb/ub of a type with an empty component: whatever the implementation chose is right, and it is what
+         places the copies of this type inside its parents. The model adopts it (the type map itself is still the model's). */
+      MPI_Aint l = 0, e = 0;
+      MPI_Type_get_extent(nt, &l, &e);
+      ms.lb = mp.lb = l;
+      ms.ub = mp.ub = l + e;
+    }
   }
   if (created && depth > 0) {
     bool same_map = ms.segs.size() == mp.segs.size() && ms.lb == mp.lb && ms.ub == mp.ub;
@@ -806,7 +818,7 @@ static void run_tree(const std::vector<const Inst*>& chain, MPI_Datatype leaf, l
     kall[k]++;
     if (!(minimal >> c & 1))
       continue;
-    if (kmin[k]++ < 1) {
+    if (kmin[k]++ < 1 || only >= 0) { /* explicit tree lists (replay, confirmation): print every minimal violation */
       if (tree.empty())
         tree = chain_str(chain, false);
       printf("V kind=%s fam=%s leaf=%c idx=%ld mode=%s tree=%s rank=%d %s\n", k.c_str(), fam, leafc, (long)cur_idx, mode, tree.c_str(), me, o.det[c].c_str());
@@ -831,6 +843,9 @@ int main(int argc, char** argv)
   shard     = atol(argv[4]);
   nshards   = atol(argv[5]);
   only      = atol(argv[6]);
+  if (only >= 0)
+    for (const char* c = argv[6]; c && *c; c = strchr(c, ',') ? strchr(c, ',') + 1 : nullptr)
+      only_list.push_back(atol(c));
   start_idx = atol(argv[7]);
   if (argc > 8)
     zeromove = atol(argv[8]);
@@ -899,8 +914,11 @@ int main(int argc, char** argv)
   for (auto* l : levels)
     total *= (long)l->size();
   /* block sharding: consecutive trees share their reduced trees, so every shard evaluates few of them */
-  long lo = only >= 0 ? only : std::max(start_idx, total * shard / nshards), hi = only >= 0 ? only + 1 : total * (shard + 1) / nshards;
-  for (long idx = lo; idx < hi; idx++) {
+  long lo = only >= 0 ? 0 : std::max(start_idx, total * shard / nshards), hi = only >= 0 ? (long)only_list.size() : total * (shard + 1) / nshards;
+  for (long it = lo; it < hi; it++) {
+    long idx = only >= 0 ? only_list[it] : it;
+    if (idx < 0 || idx >= total)
+      continue;
     cur_idx = idx;
     if (me == 0 && (n_trees & 511) == 0 && strcmp(mode, "name")) {
       printf("P idx=%ld\n", idx);
